@@ -62,6 +62,9 @@ type c20Scenario struct {
 	ApiMs     int        `json:"apiMs"`
 	MetricsMs int        `json:"metricsMs"`
 	Seconds   int        `json:"seconds"`
+	// Outage: every fourth second the temperature files hold garbage for one second (sensor outage):
+	// the error paths of sensors, curves and controllers run concurrently with everything else
+	Outage bool `json:"outage,omitempty"`
 }
 
 func genC20(t *rapid.T) c20Scenario {
@@ -92,6 +95,7 @@ func genC20(t *rapid.T) c20Scenario {
 		}
 		sc.Curves = append(sc.Curves, c)
 	}
+	sc.Outage = rapid.Bool().Draw(t, "outage")
 	nf := rapid.IntRange(1, 4).Draw(t, "nFans")
 	for i := 0; i < nf; i++ {
 		// several fans sharing one curve is the interesting case
@@ -292,6 +296,10 @@ func runC20(t *testing.T, sc c20Scenario, out *c20Counts) (problem string) {
 		for s := 0; s < sc.Seconds; s++ {
 			time.Sleep(time.Second)
 			for i, p := range tempFiles {
+				if sc.Outage && s%4 == 1 {
+					w(p, "n/a")
+					continue
+				}
 				w(p, fmt.Sprint(40000+((s*3700+i*9000)%45000)))
 			}
 			if s == sc.Seconds/2 {
